@@ -24,6 +24,8 @@ def spec(tier, seed):
     for ty in ["printable", "ia5", "teletex", "bmp", "universal"]:
         for n in ns:
             for l in range(n, 4 * n + 1):
+                if tier == "quick" and n == 2 and l not in (2, 5, 8):
+                    continue
                 arg = PRINTABLE_IDIOM if ty == "printable" else ""
                 qs.append(Query(name=f"c13_{ty}_{n}_{l}", body=f"    c13::{ty}::<{n}, {l}>({arg});", unwind=4 * n + 8, family=f"string_{ty}",
                                 shape=f"{n} arbitrary Unicode scalar value(s) whose UTF-8 encodings total {l} bytes (chars symbolic)",
@@ -36,10 +38,10 @@ def spec(tier, seed):
     for n in lens:
         qs.append(Query(name=f"c13_univ_bytes_{n}", body=f"    c13::universal_bytes::<{n}>();", unwind=n + 4, family="universal_from_utf32be",
                         shape=f"arbitrary byte string of length {n}", functions=F))
-    for n in ([1, 3] if tier == "quick" else [0, 1, 2, 3, 4]):
-        qs.append(Query(name=f"c13_ia5_san_{n}", body=f"    c13::ia5_in_san::<{n}>();", unwind=n + 24, family="ia5_in_san", stubs=S1,
-                        shape=f"IA5 text of {n} symbolic bytes in rfc822Name / dNSName / URI (variant symbolic) through the real SAN writer",
-                        functions=F))
+    for n in ([2] if tier == "quick" else [0, 1, 2, 3, 4]):
+        for which, nm in enumerate(["rfc822Name", "dNSName", "URI"]):
+            qs.append(Query(name=f"c13_ia5_san_{n}_{which}", body=f"    c13::ia5_in_san::<{n}>({which});", unwind=n + 24, family="ia5_in_san", stubs=S1,
+                            shape=f"IA5 text of {n} symbolic bytes as {nm} through the real SAN writer", functions=F, timeout=600))
     return {
         "queries": qs, "exhaustive": False,
         "bounds": "texts of 1..2 (thorough: 3) symbolic chars: one query per type and length covers all 1,112,064 scalar values per position; "
